@@ -164,11 +164,18 @@ def same_class(v, prop, inv):
     return v is not None and v.prop == prop and v.inv == inv
 
 
-def minimise(mode, cfg, events, prop, inv, budget=1500):
-    """ddmin over the event list, then argument shrinking, keeping the violation class."""
+def minimise(mode, cfg, events, prop, inv, budget=1500, wall=240.0):
+    """ddmin over the event list, then argument shrinking, keeping the violation class.
+    Bounded by a number of replays and by wall time: whatever has been reached by then is
+    reported (it still reproduces; it is just less small)."""
+    import time as _time
+
     tests = [0]
+    t0 = _time.time()
 
     def fails(evs, c=None):
+        if tests[0] > 0 and (_time.time() - t0 > wall or tests[0] > budget * 2):
+            return False
         tests[0] += 1
         v, _ = execute(mode, c or cfg, evs)
         return same_class(v, prop, inv)
@@ -209,22 +216,27 @@ def shrink_event(ev):
                 e = dict(ev)
                 e["v"] = c
                 out.append(e)
-    if "keys" in ev and len(ev["keys"]) > 1:
-        for j in range(len(ev["keys"])):
-            e = dict(ev)
-            e["keys"] = ev["keys"][:j] + ev["keys"][j + 1 :]
-            out.append(e)
-    if "items" in ev and len(ev["items"]) > 1:
-        for j in range(len(ev["items"])):
-            e = dict(ev)
-            e["items"] = ev["items"][:j] + ev["items"][j + 1 :]
-            out.append(e)
+    for fld in ("keys", "items"):
+        if fld in ev and len(ev[fld]) > 1:
+            L = len(ev[fld])
+            if L > 16:
+                # long lists: halves and quarters only (element-wise removal would need L replays)
+                cuts = [(0, L // 2), (L // 2, L), (0, L // 4), (L - L // 4, L), (1, L), (0, L - 1)]
+                for a, b in cuts:
+                    e = dict(ev)
+                    e[fld] = ev[fld][:a] + ev[fld][b:]
+                    out.append(e)
+            else:
+                for j in range(L):
+                    e = dict(ev)
+                    e[fld] = ev[fld][:j] + ev[fld][j + 1 :]
+                    out.append(e)
     if isinstance(ev.get("key"), str) and len(ev["key"]) > 2:
         for c in ("61", "62", "63"):
             e = dict(ev)
             e["key"] = c
             out.append(e)
-    if "keys" in ev and any(len(k) > 2 for k in ev["keys"]):
+    if "keys" in ev and len(ev["keys"]) <= 64 and any(len(k) > 2 for k in ev["keys"]):
         for c in ("61", "62"):
             e = dict(ev)
             e["keys"] = [c if len(k) > 2 else k for k in ev["keys"]]
